@@ -6,6 +6,12 @@ Contract checked at run time on the REAL functions:
   K2 (unit, `_body_read`): content(result) == the same expected bytes; TemporaryFile iff len > buff.
   K3 (end to end, `Request.body` through Ombott.__call__): handler sees exactly those bytes, twice
       (rewind), and wsgi.input was replaced by the buffered copy; stream consumed <= max(CL,0).
+      The property is stated for "the request body" without regard to the request method, so K3 is also
+      run with REQUEST_METHOD in GET/HEAD/POST/PUT/DELETE/PATCH/OPTIONS/lower-case spellings (route
+      registered for that method).
+  K4 (end to end, the `Request` object built directly on an environ, no routing): the same bytes, twice,
+      wsgi.input replaced, stream consumed <= max(CL,0), for every REQUEST_METHOD above and for an
+      environ without REQUEST_METHOD.
 """
 import io
 import itertools
@@ -15,7 +21,11 @@ from bounded.common import FragStream, make_environ, serve, fail
 
 BOUND = ('bodies of length 0..9 (quick) / 0..12 (thorough) over a 3-letter alphabet pattern x Content-Length in [-1, len+2] '
          'x buffer in 1..5 x every fragmentation script of length <=3 (quick) / <=4 (thorough) over {1,2,3,all} '
-         'followed by full reads; exhaustive; plus seeded random larger bodies')
+         'followed by full reads; exhaustive; plus seeded random larger bodies; end to end (application route and bare '
+         'Request object): bodies of length 0/1/4/9 x CL in {-1,0,n-1,n,n+2} x max_memfile_size 1/3/16 x 4 scripts x 3 tails, '
+         'for POST through the application, and x REQUEST_METHOD in {GET,HEAD,POST,PUT,DELETE,PATCH,OPTIONS,get,head} '
+         'through the application (route registered for that method) and through Request(environ) directly, the latter '
+         'also with REQUEST_METHOD absent; the random cases draw the method from the same set')
 NONTRIVIAL_RULE = 'distinct (kind, body, CL, buffer, script); non-trivial = body non-empty and CL > 0'
 
 
@@ -60,6 +70,32 @@ def gen_cases(tier, seed):
         cl = rnd.choice([n, n, rnd.randrange(-1, n + 5)])
         yield dict(kind=rnd.choice(['iter', 'read', 'app']), data=data, cl=cl, buff=rnd.choice([1, 7, 64, 500]),
                    script=[rnd.choice([0, 1, 2, 5, 33]) for _ in range(rnd.randrange(6))], tail=rnd.choice([0, 1, 3, 50]))
+    # end to end x request method (the statement does not restrict the method): through a route of the
+    # application and through the bare Request object (the only way to present an environ without REQUEST_METHOD)
+    for n in (0, 1, 4, 9):
+        data = bytes((97 + i) for i in range(n))
+        for cl in (-1, 0, n - 1, n, n + 2):
+            if cl < -1:
+                continue
+            for buff in (1, 3, 16):
+                for script in ((), (1,), (2, 1), (1, 1, 1)):
+                    for tail in (0, 1, 2):
+                        for method in METHODS:
+                            yield dict(kind='app', data=data, cl=cl, buff=buff, script=list(script), tail=tail, method=method)
+                        for method in METHODS + [None]:
+                            yield dict(kind='req', data=data, cl=cl, buff=buff, script=list(script), tail=tail, method=method)
+    rnd = random.Random(seed + 1)
+    for _ in range(300 if tier == 'quick' else 3000):
+        n = rnd.randrange(0, 400)
+        data = bytes(rnd.randrange(256) for _ in range(n))
+        cl = rnd.choice([n, n, rnd.randrange(-1, n + 5)])
+        kind = rnd.choice(['app', 'req'])
+        yield dict(kind=kind, data=data, cl=cl, buff=rnd.choice([1, 7, 64, 500]),
+                   script=[rnd.choice([0, 1, 2, 5, 33]) for _ in range(rnd.randrange(6))], tail=rnd.choice([0, 1, 3, 50]),
+                   method=rnd.choice(METHODS + ([None] if kind == 'req' else [])))
+
+
+METHODS = ['GET', 'HEAD', 'POST', 'PUT', 'DELETE', 'PATCH', 'OPTIONS', 'get', 'head']
 
 
 def expected(data, cl):
@@ -102,19 +138,37 @@ def run_case(case):
         if stream.consumed > max(cl, 0):
             return fail('K2.read_beyond_content_length', consumed=stream.consumed, cl=cl)
         return None
+    if case['kind'] == 'req':
+        # the bare Request object on an environ (no routing), REQUEST_METHOD as given or absent
+        from ombott.request_pkg.request import Request
+        method = case['method']
+        env = make_environ('/b', method or 'GET', stream=stream, content_length=(None if cl < 0 else cl))
+        if method is None:
+            del env['REQUEST_METHOD']
+        req = Request(env, config={'max_memfile_size': buff})
+        first = req.body.read()
+        second = req.body.read()
+        if first != exp or second != exp:
+            return fail('K4.exact', expected=exp, first=first, second=second, method=method)
+        if req.environ['wsgi.input'] is not req.body:
+            return fail('K4.input_replaced', method=method)
+        if stream.consumed > max(cl, 0):
+            return fail('K4.read_beyond_content_length', consumed=stream.consumed, cl=cl, method=method)
+        return None
     # through the application
     import ombott
     app = ombott.Ombott({'max_memfile_size': buff})
     seen = {}
+    method = case.get('method', 'POST')
 
-    @app.route('/b', method='POST')
+    @app.route('/b', method=method.upper())
     def h():
         req = app.request
         seen['first'] = req.body.read()
         seen['second'] = req.body.read()
         seen['input_is_copy'] = req.environ['wsgi.input'] is req.body
         return 'ok'
-    env = make_environ('/b', 'POST', stream=stream, content_length=(None if cl < 0 else cl))
+    env = make_environ('/b', method, stream=stream, content_length=(None if cl < 0 else cl))
     res = serve(app, env)
     if res.code != 200:
         return fail('K3.status', status=res.status, errors=res.errors[-400:])
